@@ -197,7 +197,12 @@ void SplitString(char *str, char *sep, strvector *tokens)
 {
   char *tl=NULL, *saveptr;
   /* Create a buffer of the correct length and copy the string into the buffer */
-  char  *buffer = Trim(strdup(str));
+  char  *buffer = strdup(str);
+  if(buffer == NULL){
+    fprintf(stderr, "[Libscientific] Memory Exhausted!\n");
+    abort();
+  }
+  buffer = Trim(buffer);
   /* Tokenize */
   for (tl = strtok_r(buffer, sep, &saveptr); tl; tl = strtok_r(NULL, sep, &saveptr)){
     StrVectorAppend(tokens, tl);
